@@ -303,6 +303,8 @@ Definition chk_spec (c : CT) : bool :=
     for m in AEAD_MUTS:
         cases.append((32, 12, rng.randrange(0, 80), rng.choice([0, 5, 13, 16]), m))
     cases += [(32, 11, 5, 5, 'none'), (32, 13, 5, 5, 'none'), (32, 0, 0, 0, 'none')]
+    for L in ([4049, 16384] if quick else [4048, 4049, 4064, 8192, 16384, 16640]):
+        cases.append((32, 12, L, 13, 'none'))          # up to the TLS record maximum: reference comparison only
     for kl, nl, L, al, mut in cases:
         key, nonce, pt, aad = rbytes(rng, kl), rbytes(rng, nl), rbytes(rng, L), rbytes(rng, al)
         obj = CHACHA20_POLY1305(bytearray(key), 'python')
@@ -314,7 +316,7 @@ Definition chk_spec (c : CT) : bool :=
             if sealed != want:
                 S.bad('chacha20poly1305.seal!=rfc', 'CHACHA20_POLY1305.seal differs from RFC 8439 2.8',
                       {'unit': 'chachapoly', 'key': key.hex(), 'nonce': nonce.hex(), 'pt': pt.hex(), 'aad': aad.hex(), 'impl': hexs(sealed), 'rfc': want.hex()})
-            if n_ossl < (12 if quick else 80):
+            if n_ossl < (12 if quick else 80) or L > 2000:
                 n_ossl += 1
                 o = ref.ossl_aead_chacha_seal(key, nonce, pt, aad)
                 ctx.count('chacha20poly1305:impl-vs-openssl', 1, [cls[1:]])
@@ -340,6 +342,8 @@ Definition chk_spec (c : CT) : bool :=
         elif ocode != 2:
             S.bad('chacha20poly1305:badnonce-accepted', 'open accepted a nonce that is not 12 bytes', {'unit': 'chachapoly', 'nonce': n2.hex()})
         ctx.count('chacha20poly1305:impl-vs-rfc-python', 1, [cls + (opened is not None,)])
+        if L > 2000:
+            continue
         olit_open = 'None' if ocode else '(Some %s)' % olit(opened)
         sec.add('(%s, %s, %s, %s, %s, %d, %s, %s, %s, %s, %d)' % (
             blit(key), blit(nonce), blit(pt), blit(aad), olit(sealed), scode, blit(n2), blit(c2), blit(a2), olit_open, ocode),
@@ -1089,6 +1093,12 @@ def sec_aesaead(S, quick):
         for m in AEAD_MUTS:
             cases.append((kind, 16, 12, rng.randrange(0, 50), rng.choice([0, 5, 13]), m, False))
         cases += [(kind, 16, 11, 5, 5, 'none', False), (kind, 16, 13, 5, 5, 'none', False)]
+    # plaintext lengths up to the TLS record maximum (2^14 + 256): implementation vs reference only (openssl ECB underneath);
+    # 4048/4049 = 253/254 key-stream blocks, where the low counter byte of J0+2.. carries into the next byte
+    for kind in (0, 16, 8):
+        for kl in ((16,) if quick else (16, 32)):
+            for L in (([4048, 4049, 16384] if kind == 0 else [4049]) if quick else [4048, 4049, 4064, 8192, 16384, 16640]):
+                cases.append((kind, kl, 12, L, 13, 'none' if quick else rng.choice(['none', 'flip-ct', 'flip-tag']), False))
     # CCM: AAD length encodings around the 2^16 - 2^8 boundary (toy block function: the tables would be too large)
     for kind in (16, 8):
         for al in ([2 ** 16 - 2 ** 8 - 1, 2 ** 16 - 2 ** 8, 2 ** 16 + 2 ** 8] if quick else
@@ -1099,7 +1109,7 @@ def sec_aesaead(S, quick):
     for kind, kl, nl, L, al, mut, toy in cases:
         key, nonce, pt, aad = rbytes(rng, kl), rbytes(rng, nl), rbytes(rng, L), rbytes(rng, al)
         name = {0: 'gcm', 16: 'ccm', 8: 'ccm8'}[kind]
-        table = None if toy else {}
+        table = None if (toy or L > 2000) else {}
         obj, blk = mk(kind, key, toy, table)
         ecb = (lambda b: b''.join(bytes(blk.encrypt(bytearray(b[i:i + 16]))) for i in range(0, len(b), 16))) if toy else (lambda b: ref.aes_ecb(key, b))
         sealed, scode = runf(lambda: bytes(obj.seal(bytearray(nonce), bytearray(pt), bytearray(aad))))
@@ -1109,7 +1119,7 @@ def sec_aesaead(S, quick):
         if ok:
             want = ref.gcm_seal(ecb, nonce, pt, aad) if kind == 0 else ref.ccm_seal(ecb, kind, nonce, pt, aad)
             if sealed != want:
-                S.bad('%s_seal!=spec:aad%s' % (name, '>=2^16-2^8' if al >= 65280 else '<2^16-2^8'),
+                S.bad('%s_seal!=spec:aad%s%s' % (name, '>=2^16-2^8' if al >= 65280 else '<2^16-2^8', ':pt>=4049' if L >= 4049 else ''),
                       '%s.seal differs from %s' % (name, 'SP 800-38D' if kind == 0 else 'RFC 3610'), dict(meta, impl=hexs(sealed), code=scode, spec=want.hex()))
             if kind == 0 and not toy and L == 0 and al > 0:
                 g = ref.ossl_gmac(key, nonce, aad)
@@ -1136,6 +1146,8 @@ def sec_aesaead(S, quick):
         elif ocode != 2:
             S.bad('%s:badnonce-accepted' % name, 'open accepted a nonce that is not 12 bytes', meta)
         ctx.count('aesaead:impl-vs-spec-python', 1, [cls + (opened is not None,)])
+        if L > 2000:
+            continue            # large records: direct reference comparison only
         tl = 'None' if toy else '(Some %s)' % blk_table_lit(table)
         if len(tl) > (40000 if quick else 120000):
             continue
@@ -1172,7 +1184,13 @@ Definition O1 (k e : list Z) : BlockOracle := table_block_oracle [(1 :: zlen k :
     S.sections.append(hs)
 
 
-SECTIONS = [sec_poly, sec_chacha, sec_chachapoly, sec_kdf, sec_modes, sec_aesaead]
+# ============================================================================ live connections: exporter on full and resumed handshakes
+def sec_live(S, quick):
+    import c09_live
+    c09_live.run_live(S, quick)
+
+
+SECTIONS = [sec_poly, sec_chacha, sec_chachapoly, sec_kdf, sec_modes, sec_aesaead, sec_live]
 
 
 # ============================================================================ driver
@@ -1205,6 +1223,10 @@ def run(ctx):
         'Spec/C09_*.v as the reading of RFC 8439 (cross-checked on every run against the implementation, an independent Python '
         'transcription and the openssl CLI)',
         'CPython: struct.pack/unpack, hmac.compare_digest (= equality), unbounded int arithmetic',
+        'value semantics of the translation: aliasing of mutable sequences is modelled for `x = self.f` only; the translator refuses '
+        '(fail closed) fields that store a caller-owned sequence uncopied and are updated in place, and locals mutated after being '
+        'handed to a field/property; other aliasing patterns are trusted (bounded by translation validation)',
+        'live stage: the (exporter) master secret is read from the Session object; randoms are parsed from the captured byte streams',
         'oracles (not verified): AES and 3DES block functions (Base/C09_Oracle.v BlockOracle; rijndael.py/python_tripledes.py: correspondence '
         'against openssl ECB + FIPS-197 vectors only), SHA/MD5/HMAC from hashlib (Oracles record)',
         'hand models Model/C09_KeyCalc.v (HKDF_expand_label, derive_secret, PRF_SSL, calc_key, key-block slicing, TLS 1.3 keys): correspondence tie only',
@@ -1318,6 +1340,18 @@ def replay(ctx, path):
         v = b''.join(bytes(obj.encrypt(bytearray(x))) for x in (m[:16 * a], m[16 * a:16 * b], m[16 * b:]))
         code = 0
         want = ref.ossl_cbc('aes-%d-cbc' % (len(K) * 8), K, H(r['iv']), m) if m else b''
+    elif u == 'live-exporter':
+        import c09_live
+        hits = []
+
+        class _S(object):
+            pass
+        st = _S()
+        st.ctx = ctx
+        st.bad = lambda key, what, rep: hits.append(key)
+        c09_live.run_live(st, True)
+        print('live stage re-run; failing keys now:', sorted(set(hits)))
+        return 1 if r.get('key') in hits else 0
     elif u in ('gcm', 'ccm', 'ccm8') and not r.get('toy') and 'impl' in r and 'spec' in r and 'c2' not in r and not str(r.get('aad', '')).startswith('len='):
         from tlslite.utils import python_aesgcm, python_aesccm
         obj = python_aesgcm.new(bytearray(K)) if u == 'gcm' else python_aesccm.new(bytearray(K), 16 if u == 'ccm' else 8)
